@@ -9,7 +9,7 @@ use self::asm::AsmSource;
 use self::command::{Command, CommandReader, Label, Location, MemoryLocation};
 use crate::air::AsmLine;
 use crate::output::{Condition, Output};
-use crate::runtime::{RunState, HALT_ADDRESS, USER_MEMORY_END};
+use crate::runtime::{RunState, USER_MEMORY_END};
 use crate::symbol::with_symbol_table;
 use crate::{dprintln, features};
 
@@ -176,7 +176,9 @@ impl Debugger {
                 );
                 self.status = Status::WaitForAction;
             }
-            Ordering::Greater if state.pc() != HALT_ADDRESS => {
+            // Includes PC = 0xFFFF: the debugger never executes `HALT`, so this is not a halted
+            // machine but a jump out of user memory (and waiting is the only way to make progress)
+            Ordering::Greater => {
                 dprintln!(
                     Alternate,
                     Error,
@@ -362,7 +364,7 @@ impl Debugger {
             Command::StepOver => {
                 Self::check_halt(instr)?;
                 self.status = Status::StepOver {
-                    return_addr: state.pc() + 1,
+                    return_addr: state.pc().wrapping_add(1),
                 };
                 self.should_echo_pc = true;
             }
